@@ -292,3 +292,109 @@ func TestStandinReplace(t *testing.T) {
 	})
 	x.finish(t)
 }
+
+// TestStandinHistory (C12): results are independent of call history. A used Regexp goes through a fixed rotation of
+// public calls on changing texts (so that pooled runners, recycled matches, the quick program and the replacement
+// cache are all exercised); every call's result must equal the same call on a Regexp compiled fresh for that call.
+func TestStandinHistory(t *testing.T) {
+	level := factsEnvInt("STANDIN_EXEC_LEVEL", 1)
+	x := &xrun{show: factsEnvInt("STANDIN_FACTS_SHOW", 8)}
+	var texts []string
+	factsWords([]rune{'a', 'b', '-'}, 3, func(w []rune) { texts = append(texts, string(w)) })
+	texts = append(texts, "é-a", "ab-ab-", "aabbaa", "aab-aab", "a😀b")
+	type call struct {
+		name string
+		run  func(re *Regexp, s string) string
+	}
+	show := func(m *Match, err error) string {
+		if err != nil {
+			return "error " + err.Error()
+		}
+		if m == nil {
+			return "no match"
+		}
+		return fmt.Sprintf("%d+%d %s", m.RuneIndex, m.RuneLength, factsSignature(m))
+	}
+	calls := []call{
+		{"MatchString", func(re *Regexp, s string) string { ok, err := re.MatchString(s); return fmt.Sprint(ok, err) }},
+		{"FindStringMatch", func(re *Regexp, s string) string { return show(re.FindStringMatch(s)) }},
+		{"FindAllStringIndex", func(re *Regexp, s string) string { v, err := re.FindAllStringIndex(s, -1); return fmt.Sprint(v, err) }},
+		{"Replace", func(re *Regexp, s string) string { v, err := re.Replace(s, "[$&|$1]", -1, -1); return fmt.Sprint(v, err) }},
+		{"MatchRunes", func(re *Regexp, s string) string { ok, err := re.MatchRunes([]rune(s)); return fmt.Sprint(ok, err) }},
+		{"FindRunesMatch+Next", func(re *Regexp, s string) string {
+			m, err := re.FindRunesMatch([]rune(s))
+			out := show(m, err)
+			for i := 0; m != nil && err == nil && i < 6; i++ {
+				m, err = re.FindNextMatch(m)
+				out += " / " + show(m, err)
+			}
+			return out
+		}},
+		{"Split", func(re *Regexp, s string) string { v, err := re.Split(s, -1); return fmt.Sprintf("%q %v", v, err) }},
+		{"ReplaceFunc", func(re *Regexp, s string) string {
+			v, err := re.ReplaceFunc(s, func(m Match) string { return "<" + m.String() + ">" }, -1, 2)
+			return fmt.Sprint(v, err)
+		}},
+		{"FindAllRunesIndex", func(re *Regexp, s string) string { v, err := re.FindAllRunesIndex([]rune(s), 2); return fmt.Sprint(v, err) }},
+	}
+	pats := rPatterns(level)
+	if level < 2 {
+		// quick tier: every fifth pattern and a third of the texts (a fresh Regexp is compiled for every single call)
+		var sel []rpat
+		for i, p := range pats {
+			if i%5 == 0 || i >= len(pats)-16 {
+				sel = append(sel, p)
+			}
+		}
+		pats = sel
+		var st []string
+		for i, s := range texts {
+			if i%3 == 0 || i >= len(texts)-5 {
+				st = append(st, s)
+			}
+		}
+		texts = st
+	}
+	x.patterns = len(pats)
+	var nodes []xnode
+	for i := range pats {
+		nodes = append(nodes, xatom{s: fmt.Sprint(i)})
+	}
+	xparallel(nodes, func(nd xnode) {
+		var idx int
+		fmt.Sscan(nd.fwd(), &idx)
+		p := pats[idx]
+		lc, lf, ln, ls := 0, 0, 0, 0
+		for _, opt := range []RegexOptions{None, RightToLeft, IgnoreCase} {
+			used, err := Compile(p.pat, opt)
+			if err != nil {
+				ls++
+				continue
+			}
+			for round, text := range texts {
+				// a different call order in every round
+				for k := range calls {
+					c := calls[(k*5+round)%len(calls)]
+					fresh, _ := Compile(p.pat, opt)
+					got, want := c.run(used, text), c.run(fresh, text)
+					lc++
+					if strings.HasPrefix(want, "true") || strings.Contains(want, "+") {
+						lf++
+					} else {
+						ln++
+					}
+					if got != want {
+						x.report("H-history", fmt.Sprintf("pattern=%q options=%d %s(%q) on a used Regexp gives %s, on a fresh one %s", p.pat, int(opt), c.name, text, got, want))
+					}
+				}
+			}
+		}
+		x.mu.Lock()
+		x.cases += lc
+		x.found += lf
+		x.failed += ln
+		x.skipped += ls
+		x.mu.Unlock()
+	})
+	x.finish(t)
+}
